@@ -16,7 +16,7 @@ import (
 func init() {
 	register(&explore.Prop{
 		ID: "C15", Level: levelMC, Explorer: "E2 sequence explorer, path mode",
-		Rule: "environment = three segments (A built in memory, B persisted+loaded from a byte slice the harness keeps, M produced by a merge: 1-hit terms) and three caller bitmaps (single doc; a run-optimisable range; empty); operations = full observation of each segment, WriteTo of each, DocsMatchingTerms, PostingsList(except=bitmap)+walk on each segment, and merges of sub-lists [A],[A,B],[B,A],[A,M],[M,B],[A,B,M] under several bitmap assignments (public Merge API and chunk-mode hook); every operation sequence of length <=3 (thorough <=4) on a fresh environment; after every operation: observation and persisted bytes of every segment, the raw byte image given to Load, and value + serialized form of every bitmap must equal the baseline; " +
+		Rule: "environment = three segments (A built in memory, B persisted+loaded from a byte slice the harness keeps, M produced by a merge: 1-hit terms) and three caller bitmaps (single doc; a run-optimisable range; empty); operations = full observation of each segment, WriteTo of each, DocsMatchingTerms, a doc-value reader opened on the very slice Fields() returned, PostingsList(except=bitmap)+walk on each segment, and merges of sub-lists [A],[A,B],[B,A],[A,M],[M,B],[A,B,M] under several bitmap assignments (public Merge API and chunk-mode hook); every operation sequence of length <=3 (thorough <=4) on a fresh environment; after every operation: observation and persisted bytes of every segment, the raw byte image given to Load, and value + serialized form of every bitmap must equal the baseline; " +
 			"distinct = sequences; non-trivial = sequence contains a merge or a WriteTo followed by a re-observation (all do); states = environments built, transitions = operations",
 		Assumptions: commonAssumptions, Budget: qBudget, Run: runC15,
 	})
@@ -153,6 +153,23 @@ func c15Ops() []c15Op {
 			var err error
 			msg := explore.Guard(func() {
 				_, err = e.segs[i].DocsMatchingTerms([]segment.Term{pairT{"a", "x"}, pairT{"_id", "a1"}, pairT{"b", "x"}})
+			})
+			return errOf(msg, err)
+		}})
+		// results of the API handed straight back into the API (no defensive copy by the caller)
+		ops = append(ops, c15Op{fmt.Sprintf("docvalues(%d,fields=seg.Fields())", i), func(e *c15Env) error {
+			var err error
+			msg := explore.Guard(func() {
+				var r segment.DocumentValueReader
+				r, err = e.segs[i].DocumentValueReader(e.segs[i].Fields())
+				if err != nil {
+					return
+				}
+				for d := uint64(0); d < e.segs[i].Count() && d < 3; d++ {
+					if err = r.VisitDocumentValues(d, func(string, []byte) {}); err != nil {
+						return
+					}
+				}
 			})
 			return errOf(msg, err)
 		}})
